@@ -84,6 +84,32 @@ Theorem C14_filter_errors_none_iff : forall have pmt_pid want,
 Proof. exact missing_all_iff. Qed.
 Print Assumptions C14_filter_errors_none_iff.
 
+(* the three-way contract in the property's words (requested_ok have pid x := x in the PMT, or the PAT PID, or the PMT PID) *)
+Theorem C14_filter_errors_all_present : forall c pid items want,
+  wf_carrier c -> pre c = [] -> all_mine items -> Forall (wf_item pid) items -> concat (chunks items) = ser_payload c -> want <> [] ->
+  (forall x, In x want -> requested_ok (map epid (sstreams (sec c))) pid x) ->
+  filter_pmt_packets (ser_items pid true items) want =
+  Ok (Some (spec_repack (hdrs_of pid true items)
+              (ser_unit {| pf := pf c; pre := []; sec := filtered_sec (sec c) want; stuffing := 0 |})), None).
+Proof. exact filter_all_present. Qed.
+Print Assumptions C14_filter_errors_all_present.
+Theorem C14_filter_errors_none_present : forall c pid items want,
+  wf_carrier c -> pre c = [] -> all_mine items -> Forall (wf_item pid) items -> concat (chunks items) = ser_payload c -> want <> [] ->
+  (forall x, In x want -> ~ requested_ok (map epid (sstreams (sec c))) pid x) ->
+  filter_pmt_packets (ser_items pid true items) want = Ok (None, Some want).
+Proof. exact filter_none_present. Qed.
+Print Assumptions C14_filter_errors_none_present.
+Theorem C14_filter_errors_some_present : forall c pid items want,
+  wf_carrier c -> pre c = [] -> all_mine items -> Forall (wf_item pid) items -> concat (chunks items) = ser_payload c -> want <> [] ->
+  (exists x, In x want /\ requested_ok (map epid (sstreams (sec c))) pid x) ->
+  (exists x, In x want /\ ~ requested_ok (map epid (sstreams (sec c))) pid x) ->
+  exists missing, missing <> [] /\ missing = missing_of (map epid (sstreams (sec c))) pid want /\
+    filter_pmt_packets (ser_items pid true items) want =
+    Ok (Some (spec_repack (hdrs_of pid true items)
+                (ser_unit {| pf := pf c; pre := []; sec := filtered_sec (sec c) want; stuffing := 0 |})), Some missing).
+Proof. exact filter_some_present. Qed.
+Print Assumptions C14_filter_errors_some_present.
+
 (* empty PID list: the input is returned; no packets: nothing *)
 Theorem C14_filter_empty_pids : forall p pkts, filter_pmt_packets (p :: pkts) [] = Ok (Some (p :: pkts), None).
 Proof. reflexivity. Qed.
